@@ -110,6 +110,7 @@ class KernExporter(object):
         self.prev_note_time = None
         self.prev_note_col_idx = None
         self.prev_note_row_idx = None
+        self.prev_note_is_grace = False
 
     def parse(self):
         """
@@ -150,9 +151,18 @@ class KernExporter(object):
                 )
             else:
                 structural_elements = elements_starting[~note_mask]
+            # Grace notes come before the notes and rests they start together with
+            notes_starting = elements_starting[note_mask]
+            grace_mask = np.array(
+                [isinstance(el, spt.GraceNote) for el in notes_starting], dtype=bool
+            )
             # Put structural elements first (start with tandem elements, then measure elements, then notes and rests)
             elements_starting = np.hstack(
-                (structural_elements, elements_starting[note_mask])
+                (
+                    structural_elements,
+                    notes_starting[grace_mask],
+                    notes_starting[~grace_mask],
+                )
             )
             for el in elements_starting:
                 add_row = True
@@ -294,23 +304,28 @@ class KernExporter(object):
         col_idx = self.vocstaff_map_dict[f"{voice}-{staff}"]
         markings = self.markings_to_kern(el)
         kern_el = duration + pitch + markings
-        if self.prev_note_time == el.start.t:
-            if self.prev_note_col_idx == col_idx:
-                # Chords in Kern
-                self.out_data[self.prev_note_row_idx, self.prev_note_col_idx] = (
-                    self.out_data[self.prev_note_row_idx, self.prev_note_col_idx]
-                    + " "
-                    + kern_el
+        is_grace = isinstance(el, spt.GraceNote)
+        if (
+            self.prev_note_time == el.start.t
+            and not is_grace
+            and not self.prev_note_is_grace
+        ):
+            if self.out_data[self.prev_note_row_idx, col_idx] != ".":
+                # Chords in Kern (the cell of this spline is already filled)
+                self.out_data[self.prev_note_row_idx, col_idx] = (
+                    self.out_data[self.prev_note_row_idx, col_idx] + " " + kern_el
                 )
             else:
                 # Same row (start.t) other spline
                 self.out_data[self.prev_note_row_idx, col_idx] = kern_el
         else:
-            # New line
+            # New line (every grace note has a line of its own, before the
+            # line of the notes that start at the same time)
             self.out_data[row_idx, col_idx] = kern_el
             self.prev_note_row_idx = row_idx
         self.prev_note_col_idx = col_idx
         self.prev_note_time = el.start.t
+        self.prev_note_is_grace = is_grace
 
 
 def save_kern(
